@@ -105,13 +105,13 @@ package dig
 //@   && len(pl.Params) == (isVariadic(pl.ctype) ? numIn(pl.ctype) - 1 : numIn(pl.ctype))
 //@   && (forall j int :: 0 <= j && j < len(pl.Params) ==> pl.Params[j] != nil && !is(pl.Params[j], paramList))
 
-//@ typeinv[ctor-node-wf] (n *constructorNode) n.ctor != nil && typeOf(n.ctor) == n.ctype && n.ctype != nil && kind(n.ctype) == kFunc()
+//@ typeinv[ctor-node-wf] (n *constructorNode) n.ctor != nil && typeOf(n.ctor) == n.ctype && n.ctype != nil && kind(n.ctype) == kFunc() && !isNilV(valueOf(n.ctor))
 //@   && n.location != nil && n.s != nil && n.origS != nil && n.orders != nil
 //@   && wfResultList(n.resultList) && noNestedLists(n.resultList) && n.resultList.ctype == n.ctype
 //@   && len(n.resultList.resultIndexes) == numOut(n.ctype)
 //@   && n.paramList.ctype == n.ctype && wfParamList(n.paramList)
 
-//@ typeinv[dec-node-wf] (d *decoratorNode) d.dcor != nil && typeOf(d.dcor) == d.dtype && d.dtype != nil && kind(d.dtype) == kFunc()
+//@ typeinv[dec-node-wf] (d *decoratorNode) d.dcor != nil && typeOf(d.dcor) == d.dtype && d.dtype != nil && kind(d.dtype) == kFunc() && !isNilV(valueOf(d.dcor))
 //@   && d.location != nil && d.s != nil && d.orders != nil
 //@   && wfResultList(d.results) && noNestedLists(d.results) && d.results.ctype == d.dtype
 //@   && len(d.results.resultIndexes) == numOut(d.dtype)
@@ -123,6 +123,7 @@ package dig
 //@   modifies elems(reflect.Value)
 //@   requires[C17:invoker-known] isInvoker(f)
 //@   requires[C14:call-func] valid(fn) && kind(typ(fn)) == kFunc()
+//@   requires[C14:call-a-function-that-exists] !isNilV(fn)
 //@   requires[C14:call-arity] isVariadic(typ(fn)) ? len(args) >= numIn(typ(fn)) - 1 : len(args) == numIn(typ(fn))
 //@   modifies $nrun, $runFn, $runArgs, $ev, $evKind
 //@   allocates
@@ -890,6 +891,7 @@ package dig
 // contract of the function type dig.invokerFn states for it
 
 //@ func defaultInvoker(fn, args) (results)
+//@   requires[C14:only-existing-functions-are-called] !isNilV(fn)
 //@   requires valid(fn) && kind(typ(fn)) == kFunc()
 //@   requires isVariadic(typ(fn)) ? len(args) >= numIn(typ(fn)) - 1 : len(args) == numIn(typ(fn))
 //@   modifies elems(reflect.Value), $nrun, $runFn, $runArgs, $ev, $evKind
@@ -1215,7 +1217,7 @@ package dig
 
 //@ func newConstructorNode(ctor, s, origS, opts) (n, err)
 //@   requires forall i int :: 0 <= i && i < len(opts.ResultAs) ==> opts.ResultAs[i] != nil && kind(typeOf(opts.ResultAs[i])) == kPtr() && kind(elem(typeOf(opts.ResultAs[i]))) == kInterface()
-//@   requires ctor != nil && kind(typeOf(ctor)) == kFunc() && s != nil && origS != nil && treeInv()
+//@   requires ctor != nil && kind(typeOf(ctor)) == kFunc() && !isNilV(valueOf(ctor)) && s != nil && origS != nil && treeInv()
 //@   modifies graphHolder.nodes, elems(*graphNode), map(constructorNode.orders)
 //@   allocates
 //@   ensures[C08:node-knows-its-home-and-origin] err == nil ==> n != nil && fresh(n) && n.s == s && n.origS == origS && !n.called && n.ctor == ctor && n.callback == opts.Callback
@@ -1263,7 +1265,7 @@ package dig
 //@   loop range oldProviders #1: complete[C06:every-key-restored]
 //@   loop range keys #1: complete[C09:registered-under-every-key,C06:registered-under-every-key]
 //@   loop range allScopes #1: complete[C06:every-listed-scope-snapshotted,C05:every-listed-scope-snapshotted]
-//@   requires s0 != nil && ctor != nil && kind(typeOf(ctor)) == kFunc()
+//@   requires s0 != nil && ctor != nil && kind(typeOf(ctor)) == kFunc() && !isNilV(valueOf(ctor))
 //@   requires treeInv()
 //@   modifies map(Scope.providers), Scope.nodes, elems(*constructorNode), Scope.isVerifiedAcyclic, graphHolder.nodes, graphHolder.snap, elems(*graphNode), map(constructorNode.orders), elems(*Scope), $dfsFin, $dfsCnt
 //@   modifies ProvideInfo.ID, ProvideInfo.Inputs, ProvideInfo.Outputs, elems(string), elems(any)
@@ -1339,7 +1341,7 @@ package dig
 //@ func newDecoratorNode(dcor, s, opts) (n, err)
 //@   site call dig.newParamList #1: assert[C12:a-decorators-parameters-are-parsed-against-its-own-scope,C08:a-decorators-parameters-are-parsed-against-its-own-scope] $arg0 == typeOf(dcor) && isScope($arg1) && scopeOf($arg1) == s
 //@   site call dig.newResultList #1: assert[C12:a-decorators-results-are-parsed-from-its-own-type] $arg0 == typeOf(dcor)
-//@   requires dcor != nil && kind(typeOf(dcor)) == kFunc() && s != nil && treeInv()
+//@   requires dcor != nil && kind(typeOf(dcor)) == kFunc() && !isNilV(valueOf(dcor)) && s != nil && treeInv()
 //@   modifies graphHolder.nodes, elems(*graphNode), map(constructorNode.orders)
 //@   allocates
 //@   ensures[C12:decorator-node-knows-its-scope] err == nil ==> n != nil && fresh(n) && n.s == s && n.state == decoratorReady && n.dcor == dcor && n.callback == opts.Callback
@@ -1530,7 +1532,7 @@ package dig
 //@   modifies ProvideInfo.ID, ProvideInfo.Inputs, ProvideInfo.Outputs, elems(string), elems(any)
 //@   allocates
 //@   ensures[C03:providing-runs-nothing,C17:providing-runs-nothing] $nrun == old($nrun) && $ncb == old($ncb) && $ev == old($ev)
-//@   ensures[C14:bad-constructor-is-an-error] (constructor == nil || kind(typeOf(constructor)) != kFunc()) ==> err != nil && is(err, errInvalidInput) && unchangedAll()
+//@   ensures[C14:bad-constructor-is-an-error] (constructor == nil || kind(typeOf(constructor)) != kFunc() || isNilV(valueOf(constructor))) ==> err != nil && is(err, errInvalidInput) && unchangedAll()
 //@   ensures[C06:provide-rejected-before-registration-changes-nothing,C14:provide-rejected-before-registration-changes-nothing] err != nil && !reached(provide_1) ==> unchangedAll()
 //@   ensures[C13:provide-errors-are-wrapped-once,C06:provide-errors-are-wrapped-once] reached(provide_1) && ret(provide_1, 0) != nil ==> is(err, errProvide) && as(err, errProvide).Reason == ret(provide_1, 0)
 //@   ensures[C06:provide-verdict-is-provides-verdict] reached(provide_1) ==> (err == nil) == (ret(provide_1, 0) == nil)
@@ -1622,7 +1624,7 @@ package dig
 //@   maypanic
 //@   let results = ret(invokerFn_1, 0)
 //@   let last = results[len(results) - 1]
-//@   ensures[C14:invoking-something-that-is-no-function-is-an-error] (function == nil || kind(typeOf(function)) != kFunc()) ==> err != nil && is(err, errInvalidInput) && unchangedAll() && $nrun == old($nrun)
+//@   ensures[C14:invoking-something-that-is-no-function-is-an-error] (function == nil || kind(typeOf(function)) != kFunc() || isNilV(valueOf(function))) ==> err != nil && is(err, errInvalidInput) && unchangedAll() && $nrun == old($nrun)
 //@   ensures[C04:missing-direct-dependencies-run-nothing] reached(shallowCheckDependencies_1) && ret(shallowCheckDependencies_1, 0) != nil ==> is(err, errMissingDependencies)
 //@        && as(err, errMissingDependencies).Reason == ret(shallowCheckDependencies_1, 0) && $nrun == old($nrun) && $ncb == old($ncb)
 //@   ensures[C05:graph-verified-before-anything-is-built,C16:graph-verified-before-anything-is-built] reached(BuildList_1) ==> at(BuildList_1, s.isVerifiedAcyclic)
